@@ -10,6 +10,7 @@ RULE = ("each case runs a structure (repository proteins, cut-outs centred on a 
         "contract counts how many calls really executed a swap. Symmetry of the coupled lists and "
         "star <=> partner are read from the live groups of every conformation. Non-trivial: >= 1 "
         "swap executed in the case; distinct = distinct structure digests.")
+RULE = RULE + ' Round 8: in 40 % of the cases an observer renders every determinant row of a conformation right before its search starts.'
 ASSUMPTIONS = ["-d (display of alternative states) is excluded from the on/off comparison, as the statement says; "
                "the restore contract still applies to the probability function it calls"]
 TIMEOUT = {"quick": 1800, "thorough": 10800}
